@@ -133,6 +133,24 @@ pub fn handle(op: &str, args: &[&str], text: &str) -> String {
             }
             outs.join(" # ")
         },
+        ("tapeopsh", [ops]) => {
+            let mut tape = BasicTape::init(0);
+            let cs: Vec<char> = ops.chars().collect();
+            let mut h: u64 = 0xcbf29ce484222325;
+            let mut n = 0u64;
+            for ch in cs.chunks(3) {
+                if ch.len() < 3 {
+                    break;
+                }
+                let k = tape.step(ch[0] == 'R', (ch[1] as u64) - 48, ch[2] == 's');
+                n += 1;
+                for b in format!("{k}:{tape}|").bytes() {
+                    h ^= u64::from(b);
+                    h = h.wrapping_mul(0x100000001b3);
+                }
+            }
+            format!("{n} {h:016x} {}", show_obs(&tape))
+        },
         ("slots", []) => show_slots(&crate::wrappers::tcompile(text)),
         ("rt2", [a, b]) => {
             let t1 = crate::wrappers::tcompile(text);
